@@ -699,10 +699,10 @@ class Scheduler:
                     self
                 )
             )
-            self.server.publish_queue.put(
-                self.data_store_mgr.publish_deltas)
-            # Non-async sleep - yield to other threads rather than event loop
-            sleep(0)
+            # Publish the initial data store (only if it, or anything that
+            # followed it, is still waiting to be published: commands run
+            # during start-up may already have published it).
+            self._publish_deltas()
             self.profiler.start()
             while True:  # MAIN LOOP
                 await self._main_loop()
